@@ -385,6 +385,72 @@ func verifLemmaOrder(a, b, c Endpoint) (irrefl, trans, total bool) {
 //@   props C03
 //@   ensures sameSlice(result, p.layers) && p.next == nil
 
+// ---- packet.go: first layer of a type / class (C03) ----------------------------------------------------------------
+
+// What a layer answers to LayerType() and what a class answers to Contains() are treated as functions of the
+// interface value (assumption: no LayerType / Contains implementation depends on state that decoding changes; that
+// they write nothing is checked on every implementation: class subtype).
+//@ spec abstract ltypeOf(l iface) int
+//@ spec abstract lclassHas(c iface, t int) bool
+//@ ifacecontract Layer.LayerType() LayerType
+//@   props C03
+//@   ensures result == ltypeOf(this)
+//@   modifies nothing
+//@ ifacecontract LayerClass.Contains(t LayerType) bool
+//@   props C03
+//@   ensures result == lclassHas(this, t)
+//@   modifies nothing
+
+// The layer list of a packet is append-only: AddLayer is the only function of the module that stores to
+// packet.layers of an existing packet (NewPacket initialises the list of the packet it allocates), and AddLayer's
+// contract keeps every existing element. The clause on Decoder.Decode below is this history constraint, assumed at
+// the one dynamic call that runs a decoder on an existing lazy packet.
+//@ writers C03: packet.layers: packet.AddLayer NewPacket
+//@ ifacecontract Decoder.Decode(data []byte, p PacketBuilder) error
+//@   props C03
+//@   ensures typeis(p, P_lazyPacket) ==> len(cast(p, lazyPacket).packet.layers) >= old(len(cast(p, lazyPacket).packet.layers))
+//@   ensures typeis(p, P_lazyPacket) ==> (forall i int :: 0 <= i && i < old(len(cast(p, lazyPacket).packet.layers)) ==> cast(p, lazyPacket).packet.layers[i] == old(cast(p, lazyPacket).packet.layers[i]))
+
+//@ func (p *lazyPacket) decodeNextLayer()
+//@   props C01 C03
+//@   at Decode 0: assert deferred(recoverDecodeError)
+//@   ensures len(p.layers) >= old(len(p.layers))
+//@   ensures forall i int :: 0 <= i && i < old(len(p.layers)) ==> p.layers[i] == old(p.layers[i])
+//@   ensures old(p.next) == nil ==> len(p.layers) == old(len(p.layers)) && p.next == nil
+
+// Layer(t) / LayerClass(c): the answer is the first layer of that type / class in the list, and nil only when the
+// packet is completely decoded and no layer has that type / class - the same function of the final layer list for
+// both kinds of packet.
+//@ func (p *eagerPacket) Layer(t LayerType) Layer
+//@   props C03
+//@   ensures result != nil ==> (exists k int :: 0 <= k && k < len(p.layers) && p.layers[k] == result && ltypeOf(p.layers[k]) == t && (forall j int :: 0 <= j && j < k ==> ltypeOf(p.layers[j]) != t))
+//@   ensures result == nil ==> (forall j int :: 0 <= j && j < len(p.layers) ==> ltypeOf(p.layers[j]) != t)
+//@   loop 0: invariant forall j int :: 0 <= j && j <= rangeindex ==> ltypeOf(p.layers[j]) != t
+//@ func (p *lazyPacket) Layer(t LayerType) Layer
+//@   props C03
+//@   ensures result != nil ==> (exists k int :: 0 <= k && k < len(p.layers) && p.layers[k] == result && ltypeOf(p.layers[k]) == t && (forall j int :: 0 <= j && j < k ==> ltypeOf(p.layers[j]) != t))
+//@   ensures result == nil ==> p.next == nil && (forall j int :: 0 <= j && j < len(p.layers) ==> ltypeOf(p.layers[j]) != t)
+//@   loop 0: invariant forall j int :: 0 <= j && j <= rangeindex ==> ltypeOf(p.layers[j]) != t
+//@   loop 1: invariant numLayers == len(p.layers) && (forall j int :: 0 <= j && j < numLayers ==> ltypeOf(p.layers[j]) != t)
+//@   loop 2: invariant 0 <= numLayers && numLayers <= len(p.layers) && (forall j int :: 0 <= j && j < numLayers ==> ltypeOf(p.layers[j]) != t)
+//@   loop 2: invariant forall j int :: numLayers <= j && j <= numLayers + rangeindex ==> ltypeOf(p.layers[j]) != t
+//@   at LayerType 1: assert l == p.layers[numLayers + rangeindex + 1]
+
+//@ func (p *eagerPacket) LayerClass(lc LayerClass) Layer
+//@   props C03
+//@   ensures result != nil ==> (exists k int :: 0 <= k && k < len(p.layers) && p.layers[k] == result && lclassHas(lc, ltypeOf(p.layers[k])) && (forall j int :: 0 <= j && j < k ==> !lclassHas(lc, ltypeOf(p.layers[j]))))
+//@   ensures result == nil ==> (forall j int :: 0 <= j && j < len(p.layers) ==> !lclassHas(lc, ltypeOf(p.layers[j])))
+//@   loop 0: invariant forall j int :: 0 <= j && j <= rangeindex ==> !lclassHas(lc, ltypeOf(p.layers[j]))
+//@ func (p *lazyPacket) LayerClass(lc LayerClass) Layer
+//@   props C03
+//@   ensures result != nil ==> (exists k int :: 0 <= k && k < len(p.layers) && p.layers[k] == result && lclassHas(lc, ltypeOf(p.layers[k])) && (forall j int :: 0 <= j && j < k ==> !lclassHas(lc, ltypeOf(p.layers[j]))))
+//@   ensures result == nil ==> p.next == nil && (forall j int :: 0 <= j && j < len(p.layers) ==> !lclassHas(lc, ltypeOf(p.layers[j])))
+//@   loop 0: invariant forall j int :: 0 <= j && j <= rangeindex ==> !lclassHas(lc, ltypeOf(p.layers[j]))
+//@   loop 1: invariant numLayers == len(p.layers) && (forall j int :: 0 <= j && j < numLayers ==> !lclassHas(lc, ltypeOf(p.layers[j])))
+//@   loop 2: invariant 0 <= numLayers && numLayers <= len(p.layers) && (forall j int :: 0 <= j && j < numLayers ==> !lclassHas(lc, ltypeOf(p.layers[j])))
+//@   loop 2: invariant forall j int :: numLayers <= j && j <= numLayers + rangeindex ==> !lclassHas(lc, ltypeOf(p.layers[j]))
+//@   at LayerType 1: assert l == p.layers[numLayers + rangeindex + 1]
+
 // ---- packet.go: panics do not escape decoding, the error layer is last (C01) ---------------------------
 
 // recoverDecodeError recovers exactly when recovery is enabled.
@@ -394,9 +460,6 @@ func verifLemmaOrder(a, b, c Endpoint) (irrefl, trans, total bool) {
 
 // The deferred recovery is installed before the first decoder runs (so a panic in any decoder is caught).
 //@ func (p *eagerPacket) initialDecode(dec Decoder)
-//@   props C01
-//@   at Decode 0: assert deferred(recoverDecodeError)
-//@ func (p *lazyPacket) decodeNextLayer()
 //@   props C01
 //@   at Decode 0: assert deferred(recoverDecodeError)
 
@@ -447,8 +510,12 @@ func verifLemmaOrder(a, b, c Endpoint) (irrefl, trans, total bool) {
 // sync.Pool and its users, so the array inequality is claimed for the non-pooled copy - which is also the copy a
 // pooled decode must fall back to for packets larger than a pool block.)
 //@ func NewPacket(data []byte, firstLayerDecoder Decoder, options DecodeOptions) (p Packet)
-//@   props C04
+//@   props C04 C03
+//@   ensures options.Lazy && (options.NoCopy || !options.Pool || len(entry_data) > 1500) ==> typeis(p, P_lazyPacket)
+//@   ensures options.Lazy && (options.NoCopy || !options.Pool || len(entry_data) > 1500) ==> cast(p, lazyPacket).next == firstLayerDecoder && len(cast(p, lazyPacket).packet.layers) == 0 && len(cast(p, lazyPacket).packet.data) == len(entry_data)
+//@   ensures options.Lazy && (options.NoCopy || !options.Pool || len(entry_data) > 1500) ==> cast(p, lazyPacket).packet.decodeOptions.Lazy && cast(p, lazyPacket).packet.decodeOptions.NoCopy == options.NoCopy && cast(p, lazyPacket).packet.decodeOptions.Pool == options.Pool && cast(p, lazyPacket).packet.decodeOptions.SkipDecodeRecovery == options.SkipDecodeRecovery && cast(p, lazyPacket).packet.decodeOptions.DecodeStreamsAsDatagrams == options.DecodeStreamsAsDatagrams
 //@   at initialDecode 0: assert len(arg0.packet.data) == len(entry_data)
+//@   at initialDecode 0: assert arg0.packet.decodeOptions.NoCopy == options.NoCopy && arg0.packet.decodeOptions.Pool == options.Pool && arg0.packet.decodeOptions.SkipDecodeRecovery == options.SkipDecodeRecovery && arg0.packet.decodeOptions.DecodeStreamsAsDatagrams == options.DecodeStreamsAsDatagrams && !arg0.packet.decodeOptions.Lazy
 //@   at initialDecode 0: assert !options.NoCopy && (!options.Pool || len(entry_data) > 1500) && len(entry_data) > 0 ==> arg0.packet.data.arr != entry_data.arr
 //@   at initialDecode 0: assert options.NoCopy ==> arg0.packet.data.arr == entry_data.arr && arg0.packet.data.off == entry_data.off
 //@   at initialDecode 0: assert len(entry_data) > 0 ==> arg0.packet.data[0] == old(entry_data[0]) && arg0.packet.data[len(entry_data) - 1] == old(entry_data[len(entry_data) - 1])
